@@ -252,4 +252,45 @@ theorem walkDirs_chain (extra : Str → List Pattern) (he : ∀ p, ∀ r ∈ ext
       · right; simp only [walkDirs, List.mem_append]; exact Or.inr h
 end
 
+/-! ## the order in which `read_dir` lists a directory -/
+
+/-- what one sub-directory entry contributes to the walk of its parent -/
+def dirPart (extra : Str → List Pattern) (rules : List Pattern) (here : Str) (nt : Str × Tree) : List Str :=
+  if ignored (rules ++ extra (childPath here nt.1)) (childPath here nt.1) then []
+  else childPath here nt.1 :: walkWith extra rules (childPath here nt.1) nt.2
+
+theorem walkDirs_eq_flatMap (extra : Str → List Pattern) (rules : List Pattern) (here : Str) :
+    ∀ ds, walkDirs extra rules here ds = ds.flatMap (dirPart extra rules here)
+  | [] => by simp [walkDirs]
+  | (n, t) :: rest => by
+    simp only [walkDirs, List.flatMap_cons, walkDirs_eq_flatMap extra rules here rest, dirPart]
+
+theorem walkWith_perm_children (extra : Str → List Pattern) (rules : List Pattern) (here c : Str)
+    (files files' : List Str) (dirs dirs' : List (Str × Tree)) (hf : files.Perm files') (hd : dirs.Perm dirs') :
+    (walkWith extra rules here (.node c files dirs)).Perm (walkWith extra rules here (.node c files' dirs')) := by
+  simp only [walkWith, walkDirs_eq_flatMap]
+  exact List.Perm.append ((hf.map _).filter _) (List.Perm.flatMap_right _ hd)
+
+/-- two lists of sub-directories with the same names whose subtrees walk to permutations of each other -/
+inductive SameUpToOrder (extra : Str → List Pattern) : List (Str × Tree) → List (Str × Tree) → Prop
+  | nil : SameUpToOrder extra [] []
+  | cons (n : Str) (t t' : Tree) (l l' : List (Str × Tree)) :
+      (∀ rules here, (walkWith extra rules here t).Perm (walkWith extra rules here t')) →
+      SameUpToOrder extra l l' → SameUpToOrder extra ((n, t) :: l) ((n, t') :: l')
+
+theorem walkWith_congr_subtrees (extra : Str → List Pattern) (rules : List Pattern) (here c : Str) (files : List Str)
+    (dirs dirs' : List (Str × Tree)) (h : SameUpToOrder extra dirs dirs') :
+    (walkWith extra rules here (.node c files dirs)).Perm (walkWith extra rules here (.node c files dirs')) := by
+  simp only [walkWith, walkDirs_eq_flatMap]
+  apply List.Perm.append (List.Perm.refl _)
+  induction h with
+  | nil => exact List.Perm.refl _
+  | cons n t t' l l' h2 _ ih =>
+    simp only [List.flatMap_cons]
+    apply List.Perm.append _ ih
+    simp only [dirPart]
+    split
+    · exact List.Perm.refl _
+    · exact List.Perm.cons _ (h2 _ _)
+
 end Ign
